@@ -91,6 +91,7 @@ def run(ctx):
     rng = ctx.rng
     machine = Machine("x86_32")
     items, meta = [], []
+    hangs = 0
     for n in range(250 if q else 3000):
         loc_db = LocationDB()
         lifter = machine.lifter_model_call(loc_db)
@@ -103,20 +104,32 @@ def run(ctx):
                 loc_db = LocationDB()
                 lifter = machine.lifter_model_call(loc_db)
                 g = synthetic(rng, lifter, loc_db)
+        if hangs >= 3:
+            break
         try:
-            items.append(facts(g, lifter))
+            with core.deadline(20):
+                items.append(facts(g, lifter))
             meta.append(("synthetic", "\n".join(str(b) for b in g.blocks.values())))
         except Exception as ex:
+            hangs += isinstance(ex, core.Hang)
             ctx.violation("data-flow-analysis-raised", {"graph": [str(b) for b in g.blocks.values()], "raised": type(ex).__name__ + ":" + str(ex)[:200]})
     for n in range(12 if q else 150):
         gen = asmgen.AsmGen(rng, loops=rng.random() < 0.6)
         src = gen.function(nseg=rng.randrange(1, 4))
         try:
             loc_db, lifter, cfg, head, make = asmgen.build(machine, src)
-            items.append(facts(make(), lifter))
-            meta.append(("lifted", src))
+            g = make()
         except Exception as ex:
             continue
+        if hangs >= 3:
+            break
+        try:
+            with core.deadline(60):
+                items.append(facts(g, lifter))
+            meta.append(("lifted", src))
+        except Exception as ex:
+            hangs += isinstance(ex, core.Hang)
+            ctx.violation("data-flow-analysis-raised", {"source": src, "raised": type(ex).__name__ + ":" + str(ex)[:200]})
     verdicts = X.judge(ctx, items, label="c38", module="IRJudge", chunk=300, timeout=3000)
     counts = {}
     for v, mt in zip(verdicts, meta):
